@@ -478,6 +478,8 @@ static Bytes csv_string(vf::Ctx& c)
 	static const char alpha[] = "abcdefghijklmnopqrstuvwxyzABCDEFGHIJKLMNOPQRSTUVWXYZ";
 	static const char special[] = ",;\"' ";
 	int n = c.rng.range(1, 20);
+	// one string cell in 25 is long, so that rows of very different lengths (around the reader's 254-byte chunk and beyond) follow each other
+	if (c.rng.chance(0.04)) { static const int L[] = {120, 200, 250, 253, 254, 255, 300, 508, 520, 800, 1100}; n = L[c.rng.below(11)] + c.rng.range(-2, 2); c.count("csv.cell.long-string"); }
 	Bytes s;
 	double ps = c.rng.chance(0.5) ? 0.4 : 0.1;
 	for (int i = 0; i < n; i++) {
